@@ -60,6 +60,20 @@ def generate(rng, tier):
         tl = total_len(files)
         pos = sorted(set([0, 1, tl - 1, tl, tl + 1, tl + 50] + [rng.randrange(0, tl + 3) for _ in range(30)]))
         out.append((case(files, pos), {"stream": "random"}))
+    # big files (read from disk in blocks by a streaming ReadFile, say): CRLF pairs astride multiples of 64 KiB / 4 KiB
+    bigs = [(70000, [65535]), (140000, [65535, 131071]), (66000, [4095, 8191, 32767, 65534, 65536])]
+    if tier != "quick":
+        bigs += [(70000, [65535 - k]) for k in (1, 2)] + [(200000, [65535, 131071, 196607]), (70000, [16383, 65535])]
+    for size, crs in bigs:
+        big = "(big_bytes %d [97] 40 61 %s)" % (size, lst(crs))
+        names = [[97], [98, 46, 116], [99]]
+        small = [[120, 10, 121], None, [122, 13, 10, 122]]
+        tl = 1 + 4 + (size + 1) + 5
+        near = [5 + j - i + k for i, j in enumerate(crs) for k in range(-3, 5)]   # position of the pair in the set, roughly
+        pos = sorted(set([0, 1, 5, 6, tl - 8, tl - 1, tl, tl + 1] + near + [j + k for j in crs for k in range(0, 9)] +
+                         [rng.randrange(0, tl + 3) for _ in range(40)]))
+        text = "C11 [%s] %s" % ("; ".join("(%s, %s)" % (lst(n), big if d is None else lst(d)) for n, d in zip(names, small)), lst(pos))
+        out.append((text, {"stream": "big"}))
     return out
 
 
